@@ -32,16 +32,21 @@ static inline uint64_t spec_bishop_walk(uint32_t sq, uint64_t occ)
 { return spec_walk_ray(0, sq, occ) | spec_walk_ray(2, sq, occ) | spec_walk_ray(4, sq, occ) | spec_walk_ray(6, sq, occ); }
 static inline uint64_t spec_queen_walk(uint32_t sq, uint64_t occ) { return spec_rook_walk(sq, occ) | spec_bishop_walk(sq, occ); }
 
-static inline uint64_t spec_leaper(uint32_t sq, const int *df, const int *dr)
-{
-  uint64_t a = 0; int f = (int)(sq & 7), r = (int)(sq >> 3);
-  for (int i = 0; i < 8; i++) if (spec_on_board(f + df[i], r + dr[i])) a |= SPEC_BIT((r + dr[i]) * 8 + f + df[i]);
-  return a;
-}
+/* the square (f + df, r + dr) as a one-bit set, empty when it is off the board */
+static inline uint64_t spec_leap(int f, int r, int df, int dr)
+{ return spec_on_board(f + df, r + dr) ? SPEC_BIT((r + dr) * 8 + f + df) : 0ULL; }
 static inline uint64_t spec_knight(uint32_t sq)
-{ const int df[8] = {1, 2, 2, 1, -1, -2, -2, -1}; const int dr[8] = {2, 1, -1, -2, -2, -1, 1, 2}; return spec_leaper(sq, df, dr); }
+{
+  int f = (int)(sq & 7), r = (int)(sq >> 3);
+  return spec_leap(f, r, 1, 2) | spec_leap(f, r, 2, 1) | spec_leap(f, r, 2, -1) | spec_leap(f, r, 1, -2) |
+         spec_leap(f, r, -1, -2) | spec_leap(f, r, -2, -1) | spec_leap(f, r, -2, 1) | spec_leap(f, r, -1, 2);
+}
 static inline uint64_t spec_king(uint32_t sq)
-{ const int df[8] = {1, 1, 1, 0, -1, -1, -1, 0}; const int dr[8] = {1, 0, -1, -1, -1, 0, 1, 1}; return spec_leaper(sq, df, dr); }
+{
+  int f = (int)(sq & 7), r = (int)(sq >> 3);
+  return spec_leap(f, r, 1, 1) | spec_leap(f, r, 1, 0) | spec_leap(f, r, 1, -1) | spec_leap(f, r, 0, -1) |
+         spec_leap(f, r, -1, -1) | spec_leap(f, r, -1, 0) | spec_leap(f, r, -1, 1) | spec_leap(f, r, 0, 1);
+}
 
 /* relevant-occupancy masks of the magic look-up: the ray squares without the last square of each ray */
 static inline uint64_t spec_inner_ray(int ray, uint32_t sq)
